@@ -32,6 +32,9 @@ FLAVOURS = {
     "ann_dict": ("AnnD", {"alias": "AnnD", "exact": "Dict[str, int]", "origin": "dict"}, "{'a': 1}", "{'b': 2}"),
     "ann_date": ("AnnDate", {"alias": "AnnDate", "exact": "datetime.date"}, "datetime.date(2020, 1, 2)", "'2020-01-02'"),
     "plain_list": ("List[int]", {"exact": "List[int]", "origin": "list"}, "[1, 2]", "[3]"),
+    # Annotated with UNHASHABLE metadata: the alias itself cannot be a key, the exact type and the origin still are
+    "ann_unhashable": ("Annotated[List[int], {'note': ['x']}]", {"exact": "List[int]", "origin": "list"}, "[1, 2]", "[3]"),
+    "ann_unhashable_date": ("Annotated[datetime.date, ['meta']]", {"exact": "datetime.date"}, "datetime.date(2020, 1, 2)", "'2020-01-02'"),
     # the aliased type below another type (list element / Optional), the outer type itself Annotated or not: field-level
     # options belong to the whole field, so only the keyed registrations are in play
     "in_list": ("List[AnnDate]", {"alias": "AnnDate", "exact": "datetime.date"}, "[datetime.date(2020, 1, 2)]", "['2020-01-02']"),
@@ -349,7 +352,7 @@ def format_entry(rec, rng, mod, M, kw, winner, styles, value, wire, det, facts, 
 
 def builtin(flavour, direction, given):
     import datetime
-    if flavour == "ann_date" or flavour in WRAP:
+    if flavour in ("ann_date", "ann_unhashable_date") or flavour in WRAP:
         return given.isoformat() if direction == "S" else datetime.date.fromisoformat(given)
     if flavour == "ann_dict":
         return dict(given)
